@@ -4,6 +4,53 @@ a false alarm (1) or an inconclusive analysis (2) to look at.  usage: eval_refac
 import glob, os, subprocess, sys, tempfile, shutil, json
 from concurrent.futures import ThreadPoolExecutor
 
+import re as _re
+
+
+def _keys(out):
+    ks = set()
+    for l in out.splitlines():
+        l = l.strip()
+        if " rule=" in l and (" instance=" in l or l.startswith("ANALYSIS-ERROR")):
+            ks.add(_re.sub(r"/tmp/\S+", "<tmp>", l)[:400])
+    return ks
+
+
+def _run_all(S):
+    res = {}
+    for i in range(1, 21):
+        pid = f"C{i:02d}"
+        env = dict(os.environ, JV_EVIDENCE_DIR=os.path.join(S, ".ev"), JV_REPO=S)
+        r = subprocess.run(["/venv/bin/python", os.path.join(VSNAP, "bin/check"), pid, "--repo", S], env=env, capture_output=True, text=True, timeout=900)
+        res[pid] = (r.returncode, _keys(r.stdout))
+    return res
+
+
+def relative(path, patch, tag):
+    """the patch no longer applies to HEAD (later fix commits touch the same lines): find the newest commit it applies to and
+    require that the checks report exactly the same violations / analysis errors with and without it there"""
+    shas = subprocess.run(["git", "-C", "/repo", "log", "--format=%h", "924039f^..HEAD"], capture_output=True, text=True).stdout.split()
+    for sha in shas:
+        B = tempfile.mkdtemp(prefix="jvrefb.")
+        P = tempfile.mkdtemp(prefix="jvrefp.")
+        try:
+            for D in (B, P):
+                subprocess.run(f"git -C /repo archive {sha} jinns | tar -x -C {D}", shell=True, check=True)
+            subprocess.run("git init -q . && git add -A >/dev/null && git -c user.email=a@b -c user.name=x commit -qm base", shell=True, cwd=P, check=True)
+            if subprocess.run(["git", "apply", patch], cwd=P, capture_output=True).returncode != 0:
+                continue
+            rb, rp = _run_all(B), _run_all(P)
+            bad = {}
+            for pid in rb:
+                new = rp[pid][1] - rb[pid][1]
+                if new or (rp[pid][0] != rb[pid][0]):
+                    bad[pid] = (rp[pid][0], sorted(new)[:3] or [f"exit {rb[pid][0]} -> {rp[pid][0]}"])
+            return tag, f"ok (relative to {sha}: same reports with and without the patch)" if not bad else f"relative to {sha}", bad
+        finally:
+            shutil.rmtree(B, ignore_errors=True); shutil.rmtree(P, ignore_errors=True)
+    return tag, "patch applies to no commit", {}
+
+
 def one(path):
     path = os.path.abspath(path)
     tag = "/".join(path.rstrip("/").split("/")[-2:])
@@ -23,7 +70,7 @@ def one(path):
             subprocess.run(["git", "clone", "-q", "--local", "/repo", S], check=True)
             r = subprocess.run(["git", "apply", "-3", patch], cwd=S, capture_output=True, text=True)
             if r.returncode != 0:
-                return tag, "patch does not apply: " + r.stderr[-200:], {}
+                return relative(path, patch, tag)
         bad = {}
         for i in range(1, 21):
             pid = f"C{i:02d}"
@@ -47,7 +94,7 @@ if __name__ == "__main__":
     paths = [p for p in (sys.argv[1:] or sorted(glob.glob("/verif/refactorings/*"))) if os.path.isdir(p)]
     with ThreadPoolExecutor(8) as ex:
         for tag, st, bad in ex.map(one, paths):
-            print(tag, st, "ALL SILENT" if (st == "ok" and not bad) else "")
+            print(tag, st, "ALL SILENT" if (st.startswith("ok") and not bad) else "")
             for pid, (rc, lines) in bad.items():
                 print("   ", pid, "exit", rc)
                 for l in lines:
